@@ -128,6 +128,13 @@ theorem C08_crash_surfaces (s s' : TSt) (leaves : List Nat) (hstep : tstep? s (.
   rw [List.all_eq_true] at hall
   simpa using hall e he
 
+/-- Every way a task can end with an exception — by itself, or from its clean-up while it is being
+cancelled at teardown — records that exception as escaped (and `C08_crash_surfaces` then hands it
+to the caller). -/
+theorem C08_exception_recorded (s s' : TSt) (tid e : Nat) (hc : s.crashed = [])
+    (hstep : tstep? s (.taskEnded tid (some e)) = some s') : e ∈ s'.crashed :=
+  tstep_taskEnded_exc s s' tid e hc hstep
+
 /-- Without a crash the caller sees exactly the exceptions raised by the teardown callbacks. -/
 theorem C08_outcome_exact (s s' : TSt) (leaves : List Nat) (hc : s.crashed = [])
     (hstep : tstep? s (.outcome leaves) = some s') : leaves = s.excs ∧ s.left = true := by
@@ -184,6 +191,20 @@ example :
     (match taccept (TSt.init prog) [.taskSaw 7 [], .exitBegin, .cbRun 2, .actionCalled 7, .cbRun 1] 0 with
      | .ok _ => false
      | .error p => p.1 == 4) = true := by
+  decide
+
+/-- Non-vacuity for a task whose clean-up raises while it is being cancelled at teardown: the
+exception reaches the caller; an outcome without it is rejected. -/
+example :
+    let prog : List Setup := [.reg 1 none, .start ⟨7, .cancel, .failsWhenCancelled 1 3⟩]
+    (match taccept (TSt.init prog) [.taskSaw 7 [], .exitBegin, .cancelSeen 7, .cleanupTick 7, .taskEnded 7 (some 3),
+        .taskClosed 7, .cbRun 1, .blockLeft, .outcome [3]] 0 with
+     | .ok s => s.reported
+     | .error _ => false) = true ∧
+    (match taccept (TSt.init prog) [.taskSaw 7 [], .exitBegin, .cancelSeen 7, .cleanupTick 7, .taskEnded 7 (some 3),
+        .taskClosed 7, .cbRun 1, .blockLeft, .outcome []] 0 with
+     | .ok _ => false
+     | .error p => p.1 == 8) = true := by
   decide
 
 end Asphalt
